@@ -47,6 +47,9 @@ def validate(tr):
     return validate_many([tr])[0]
 
 
+REPLAY_STATS = {"multi_pipeline_product_replays": 0}
+
+
 def replay_many(traces):
     """replay every trace on the PROOF MODEL (single producer: Pipeline.v / pipe_replay_entry, multi producer: MultiPub.v /
     ring_replay_entry); works for aborted runs too (any prefix of an execution is an execution).
@@ -61,10 +64,30 @@ def replay_many(traces):
                 outs.append(driver_eval([ln])[0])
             except RuntimeError:
                 DRIVER_FAILURES.append(len(traces[i].events)); outs.append("-1")
+    # multi-producer pipelines: the PRODUCT model as well (sequencer x handler stages, Disruptor/MultiPipe.v)
+    midx = [i for i, t in enumerate(traces) if t.cfg.multi]
+    mouts = {}
+    if midx:
+        mlines = [lines[i].replace("ring_replay_entry", "multipipe_replay_entry", 1) for i in midx]
+        try:
+            mo = driver_eval(mlines)
+        except RuntimeError:
+            mo = []
+            for k, ln in enumerate(mlines):
+                try:
+                    mo.append(driver_eval([ln])[0])
+                except RuntimeError:
+                    DRIVER_FAILURES.append(len(traces[midx[k]].events)); mo.append("-1")
+        mouts = {i: int(o.split()[0]) for i, o in zip(midx, mo)}
+        REPLAY_STATS["multi_pipeline_product_replays"] += len(midx)
     res = []
-    for t, o in zip(traces, outs):
+    for ti, (t, o) in enumerate(zip(traces, outs)):
         v = int(o.split()[0])
-        if v < 0:
+        if v < 0 and mouts.get(ti, -1) >= 0:
+            v = mouts[ti]
+            res.append(f"event #{v} is not an enabled step of the product model Disruptor/MultiPipe.v (multi-producer sequencer x handler stages) in the state the replay had reached: "
+                       f"{t.events[v].brief()} (previous of that thread: " + "; ".join(e.brief() for e in [x for x in t.events[:v] if x.tid == t.events[v].tid][-3:]) + ")")
+        elif v < 0:
             res.append(True)
         else:
             model = "Disruptor/MultiPub.v" if t.cfg.multi else "Disruptor/Pipeline.v"
